@@ -65,6 +65,53 @@ pub fn draw_perms(g: &mut Gen, model: &Model) -> Option<PermSpec> {
     Some(PermSpec { global, streams: spec_streams })
 }
 
+/// The record with one grant taken away: a flag of a stream record, a topic record, a global flag, a whole
+/// stream record, or everything.
+fn demote(g: &mut Gen, mut spec: PermSpec) -> Option<PermSpec> {
+    let kind = g.rng.below(10);
+    if let (0..=5, Some(streams)) = (kind, spec.streams.as_mut()) {
+        if !streams.is_empty() {
+            let i = g.rng.usize_below(streams.len());
+            let set: Vec<usize> = (0..6).filter(|f| streams[i].1[*f]).collect();
+            if kind <= 3 && !set.is_empty() {
+                let f = *g.rng.pick(&set);
+                streams[i].1[f] = false;
+                return Some(spec);
+            }
+            if kind == 4 {
+                if let Some(table) = streams[i].2.as_mut() {
+                    if !table.is_empty() {
+                        let t = g.rng.usize_below(table.len());
+                        let set: Vec<usize> = (0..4).filter(|f| table[t].1[*f]).collect();
+                        if !set.is_empty() {
+                            let f = *g.rng.pick(&set);
+                            table[t].1[f] = false;
+                            return Some(spec);
+                        }
+                    }
+                }
+            }
+            if streams.len() > 1 || g.cfg.codec_corners {
+                streams.remove(i);
+            } else {
+                spec.streams = None;
+            }
+            return Some(spec);
+        }
+    }
+    if kind == 9 {
+        return None;
+    }
+    let set: Vec<usize> = (0..10).filter(|f| spec.global[*f]).collect();
+    if !set.is_empty() {
+        let f = *g.rng.pick(&set);
+        spec.global[f] = false;
+    } else {
+        spec.streams = None;
+    }
+    Some(spec)
+}
+
 pub fn user_op(g: &mut Gen, model: &Model, c: usize) -> Op {
     let users: Vec<(u32, String, String)> = model.users.values().map(|u| (u.id, u.name.clone(), u.password.clone())).collect();
     let non_root: Vec<(u32, String, String)> = users.iter().filter(|u| u.0 != 1).cloned().collect();
@@ -87,7 +134,25 @@ pub fn user_op(g: &mut Gen, model: &Model, c: usize) -> Op {
         7..=10 => match non_root.is_empty() {
             false => {
                 let u = g.rng.pick(&non_root).clone();
-                Op::UpdatePermissions { c, user: uref(g, &u), perms: draw_perms(g, model) }
+                let current = model.users.get(&u.0).and_then(|m| m.perms.clone());
+                let perms = match current {
+                    Some(current) if g.rng.chance(g.cfg.revocation_chance) => {
+                        // revocation arm: take one grant away, keep the rest, and let the user's open
+                        // connections try at once what the old record allowed
+                        for c2 in 1..g.cfg.clients {
+                            if model.sessions.get(c2).map(|s| s.user == u.0).unwrap_or(false) {
+                                for _ in 0..(2 + g.rng.below(4)) {
+                                    if let Some(op) = g.permission_probe(model, c2) {
+                                        g.pending.push_back(op);
+                                    }
+                                }
+                            }
+                        }
+                        demote(g, current)
+                    }
+                    _ => draw_perms(g, model),
+                };
+                Op::UpdatePermissions { c, user: uref(g, &u), perms }
             }
             true => Op::GetUsers { c },
         },
